@@ -9,7 +9,7 @@ for name in "$@"; do
   echo "=== $name"
   ( cd "$W" && git checkout -q -- . && git apply "$d/patch.diff" ) || { echo "patch does not apply"; continue; }
   MCV_REPO="$W" /verif/tools/baseline.sh | sed 's/^/  suite with patch: /'
-  sed "s#/tmp/seed/C[0-9]*#$W#g" "$d/demo.rs" > "$W/tests/seed_demo.rs"   # demos that hard-code their original worktree
+  sed "s#/tmp/seed/C[0-9]*b\?#$W#g" "$d/demo.rs" > "$W/tests/seed_demo.rs"   # demos that hard-code their original worktree
   ( cd "$W" && cargo test --offline --test seed_demo 2>&1 | grep -E "^test result" | sed 's/^/  demo with patch:    /' )
   ( cd "$W" && git checkout -q -- . && cargo test --offline --test seed_demo 2>&1 | grep -E "^test result" | sed 's/^/  demo without patch: /' )
   rm -f "$W/tests/seed_demo.rs"
